@@ -8,6 +8,7 @@ PFX = '_ŠČ'
 def P(i): return ('P', i)                       # type parameter
 def C(name, *args): return ('C', name, args)    # nominal type / path with generic args
 def CP(name, ins, out): return ('CP', name, tuple(ins), out)   # name(ins) -> out  (Fn sugar)
+def HB(lts, bound): return ('HB', ','.join(lts), bound)   # for<'x, ..> bound (lifetimes as one string)
 def Tup(*ts): return ('Tup', ts)
 def Ref(lt, mut, t): return ('Ref', lt, mut, t)
 def Ptr(mut, t): return ('Ptr', mut, t)
@@ -77,6 +78,8 @@ def show(t):
         if t[2]:
             return '%s<%s>' % (t[1], ', '.join(show_garg(a) for a in t[2]))
         return t[1]
+    if k == 'HB':
+        return 'for<%s> %s' % (', '.join("'" + l for l in t[1].split(',')), show(t[2]))
     if k == 'CP':
         return '%s(%s)%s' % (t[1], ', '.join(show(x) for x in t[2]), '' if t[3] is None else ' -> ' + show(t[3]))
     if k == 'Tup':
@@ -224,7 +227,8 @@ def small_types(budget, nparams=2, with_exprs=True):
                     Slice(t), Paren(t), Tup(t), Fn(None, False, [t], None), Fn(None, False, [], t),
                     Fn('C', False, [t], None), Fn('', False, [t], None),
                     Dyn(C('Tr', t)), Dyn(C('Tr', GAssoc('A', t))), Proj(t, C('Tr'), 'A'), C('m::W', t), C('::m::W', t),
-                    Dyn(CP('Fn', [t], None)), Dyn(CP('Fn', [], t)), Proj(C('X'), C('Tr', t), 'A')]
+                    Dyn(CP('Fn', [t], None)), Dyn(CP('Fn', [], t)), Proj(C('X'), C('Tr', t), 'A'),
+                    Dyn(HB(['x'], C('Tr', t))), Dyn(HB(['x', 'y'], C('Tr', t)))]
             if with_exprs:
                 for e in exprs1:
                     cur.append(Arr(t, e))
@@ -316,6 +320,10 @@ def rand_type(rng, depth, nparams, allow_params=True, exprs=True):
         if rng.random() < 0.3:
             bounds = [CP(rng.choice(['Fn', 'FnMut', 'm::Fq']), [sub() for _ in range(rng.randrange(3))],
                          sub() if rng.random() < 0.7 else None)]
+        if rng.random() < 0.2:
+            # higher-ranked bound: for<'x> Tr<&'x T>
+            lts = rng.choice([['x'], ['x', 'y']])
+            bounds = [HB(lts, C(rng.choice(['Tr', 'm::Tq']), Ref('x', False, sub())))]
         if rng.random() < 0.4:
             bounds.append(C('Send'))
         if rng.random() < 0.3:
@@ -387,6 +395,9 @@ def mutate(rng, x):
         if c == 1 and x[2]:
             return C(x[1], *x[2][:-1])
         return C('q::' + x[1], *x[2])
+    if k == 'HB':
+        lts = x[1].split(',')
+        return HB(lts + ['z'], x[2]) if rng.random() < 0.5 else HB(lts[:-1] or ['w'], x[2])
     if k == 'CP':
         c = rng.randrange(3)
         if c == 0:
